@@ -108,6 +108,24 @@ def c17(ctx):
                               {"replay_kind": "todyn_probe", "features": list(feats), "tag": tag, "name": name, "source": src},
                               "to_dyn! does not work in a calling crate when rrtk is built with features [%s] (%s): %s" % (
                                   ", ".join(feats), name, res[name][1]))
+    # beyond C17: which borrows of a Reference may coexist within one thread (spec/RefGuards.tla); deviations are EXTRA-DEVIATION notes
+    gcfg = cfg_text(constants={"MaxLen": 5 if q else 6, "MaxGuards": 3, "Emit": True}, invariants=["Laws", "EmitInv"])
+    rg = tlc_ok(run_tlc(ctx, "RefGuards", gcfg, "guards", 2))
+    if rg["n"] == 0:
+        raise ToolError("RefGuards emitted no behaviours")
+    gbin = build_harness(["guards"], DEFAULT, "default")
+    _, gsum, gother = run_bin(gbin, "guards", ["replay", rg["behaviours"]], timeout=600)
+    if gsum.get("with_two_readers", 0) == 0:
+        raise ToolError("no guard behaviour with two simultaneous readers: the read / write variants are not exercised")
+    ctx.extra["guard_discipline"] = gsum
+    for l in gother:
+        if l.startswith("DEVIATION "):
+            d = json.loads(l[10:])
+            ctx.beyond_property("RefGuards.tla (borrow discipline within one thread), %s behaviour #%d step %s: %s; specification %s, implementation %s" % (
+                d["variant"], d["line"], d["step"], d["what"], json.dumps(d["exp"]), json.dumps(d["got"])))
+    ctx.notes.append("beyond C17: RefGuards.tla (which borrows of a Reference may coexist within one thread: RefCell-like panics, several readers "
+                     "on the read / write lock variants, one guard on the mutex variants, every guard sees the last write) replayed on the "
+                     "real guards: %d behaviours, %d deviations (reported as EXTRA-DEVIATION, not as violations)" % (gsum["behaviours"], gsum["deviations"]))
     ctx.rule = ("handles: six variants x every sequence of {clone, to_dyn, write, read, drop} up to the bound with at most 4 live handles, plus "
                 "random sequences of 12; after every operation every live handle is read and the drop counter of the payload inspected; the "
                 "harness is built twice, as a calling crate without and with cargo features named alloc / std, so every to_dyn! step runs in "
